@@ -2032,6 +2032,42 @@ pub fn run(out: &mut Out, seed: u64, thorough: bool, replay: Option<&str>) {
         d.out.mark_distinct(fnv(format!("F2{explicit_server}").as_bytes()));
         d.s.shutdown();
     }
+    // ---- F3: a NATed adaptive node (its voted address is not reachable) is pinged from its own IP on
+    //          another port — another host behind the same NAT (C18): that confirms nothing
+    for same_port_other_ip in [false, true] {
+        t0 += 10_000_000_000_000;
+        let net = VNet::new(&mut rng, 6, false);
+        let boot = vec![net.peers[0].addr];
+        let mut d = Driver::new(out, rng.next(), net);
+        d.reachable = false;
+        let pub_ip = Ipv4Addr::new(45, 7, 7, 7);
+        d.begin("c", &boot, Some(pub_ip), rng.next() % 1_000_000 + 1, t0);
+        d.run_for(3 * SEC, 10 * MS);
+        d.run("snap".into());
+        let from = if same_port_other_ip { SocketAddrV4::new(Ipv4Addr::new(45, 7, 7, 8), 6881) } else { SocketAddrV4::new(pub_ip, 7000) };
+        for k in 0..3 {
+            let rid = if k == 0 { d.s.own_id.unwrap_or(Id::from_bytes(rng.id20()).expect("id")) } else { Id::from_bytes(rng.id20()).expect("id") };
+            d.inject_request(from, rid, RequestTypeSpecific::Ping, k == 2);
+            d.run_for(200 * MS, 10 * MS);
+        }
+        d.run("snap".into());
+        if let Some(sn) = d.s.last_snapshot.clone() {
+            if !sn.firewalled {
+                d.out.violation("C18", "foreign-ping-confirms-address", format!("a ping from {from}, which is not the address the peers report ({:?}), cleared the firewalled flag", sn.public_address));
+            }
+        }
+        d.run_for(16 * 60 * SEC, SEC);
+        d.run_for(3 * SEC, 10 * MS);
+        d.run("snap".into());
+        if let Some(sn) = d.s.last_snapshot.clone() {
+            if sn.server_mode {
+                d.out.violation("C18", "nat-became-server", format!("a node whose reported address is not reachable switched to server mode after a ping from {from}"));
+            }
+        }
+        d.finish();
+        d.out.mark_distinct(fnv(format!("F3{same_port_other_ip}").as_bytes()));
+        d.s.shutdown();
+    }
     // ---- L: a put started from the lookup cache is storing when another lookup of the same target
     //         ends with no responders at all (C08): one node acknowledged, so the put is Ok
     for acks in [1usize, 0] {
